@@ -32,7 +32,7 @@ from props import _sched_util as U
 PROP = "C52"
 READY = True
 DRIVER = "dm_sched"
-LEAN_MODULES = ["DaskModel.Props.C52", "DaskModel.Props.C52xSession"]
+LEAN_MODULES = ["DaskModel.Props.C52", "DaskModel.Props.C52xSession", "DaskModel.Props.C52xCost"]
 CASE_TIMEOUT_S = 30
 LEVEL_TEXT = (
     "Lean 4 theorems: (Profiler, modelled as a fold over the scheduler's callback log) for every event sequence "
@@ -289,6 +289,120 @@ def case_cprof(ctx, inp):
         ctx.branch("cprof:freed-before-the-end")
 
 
+def case_cost(ctx, inp):
+    """the cost bookkeeping of the real Cache (`_pretask` / `_posttask` / `_finish`, deterministic counter clock) over 2-4
+    calls under ONE Cache object (cached dependencies are patched out, so their duration counts 0) vs the model fold
+    `costRun` over the same callback sequence; direct oracle: the duration handed to `cache.put` is the critical-path
+    length of the task's own running times over the tasks executed in this call"""
+    from core import enable_stubs
+    enable_stubs()
+    import dask.cache as CM
+    from dask.local import get_sync
+    from dask.threaded import get as tget
+    dag = inp["dag"]
+    rng = random.Random(inp["seed"])
+    clock = _Clock()
+    orig = CM.default_timer
+    CM.default_timer = clock
+
+    class RecCache(CM.Cache):
+        """the real Cache; only records which callbacks it processed and the durations it computed"""
+
+        def __init__(self, *a, **k):
+            super().__init__(*a, **k)
+            self.trace = []
+
+        def _pretask(self, key, dsk, state):
+            super()._pretask(key, dsk, state)
+            self.trace.append(("pre", key, self.starttimes[key]))
+
+        def _posttask(self, key, value, dsk, state, id):
+            deps = list(state["dependencies"][key])
+            super()._posttask(key, value, dsk, state, id)
+            self.trace.append(("post", key, clock.t, deps, self.durations[key]))
+
+        def _finish(self, dsk, state, errored):
+            super()._finish(dsk, state, errored)
+            self.trace.append(("finish", dict(self.starttimes), dict(self.durations)))
+    try:
+        cache = RecCache(1e9)
+        costs = []
+        real_put = cache.cache.put
+
+        def put(key, value, cost=None, nbytes=None, **kw):
+            costs.append((key, cost, nbytes))
+            return real_put(key, value, cost=cost, nbytes=nbytes, **kw)
+        cache.cache.put = put
+        per_call, keys = [], None
+        for call in inp["calls"]:
+            fails = {int(k): v for k, v in call.get("fails", {}).items()}
+            dsk, keys = U.render(dag, fails)
+            req = U.map_req(call["req"], lambda i: keys[i])
+            for k in list(cache.cache.data):
+                if rng.random() < call.get("evict", 0.0):
+                    del cache.cache.data[k]
+            cached = set(cache.cache.data)
+            t0 = len(cache.trace)
+            try:
+                with cache:
+                    if call["sched"] == "threaded":
+                        tget(dsk, req, num_workers=call.get("nw", 2), chunksize=call.get("cs", 1))
+                    else:
+                        get_sync(dsk, req)
+                failed = False
+            except (U.Boom, ValueError):
+                failed = True
+            per_call.append((call, failed, cached, cache.trace[t0:]))
+        idof = {k: i for i, k in enumerate(keys)}
+    finally:
+        CM.default_timer = orig
+    evs, puts = [], []
+    for call, failed, cached, seg in per_call:
+        start, crit = {}, {}
+        if not seg or seg[-1][0] != "finish":
+            ctx.fail("Cache._finish was not the last callback of the call", observed=[str(e[0]) for e in seg[-2:]])
+        for e in seg:
+            if e[0] == "pre":
+                start[e[1]] = e[2]
+                evs.append([Sym("pre"), idof[e[1]], e[2]])
+            elif e[0] == "post":
+                _, key, t, deps, dur = e
+                own = t - start[key]
+                # independent oracle: critical path over the tasks executed in this call
+                want = own + max([crit.get(d, 0) for d in deps] or [0])
+                crit[key] = want
+                if dur != want:
+                    ctx.fail("Cache: the duration of a task is not own time + the largest duration of a dependency executed in the call",
+                             observed=[idof[key], dur], expected=want)
+                if dur < own or any(dur < crit.get(d, 0) for d in deps):
+                    ctx.fail("Cache: a task is recorded as cheaper than itself or one of its dependencies", observed=[idof[key], dur])
+                if any(d in cached and d in crit for d in deps):
+                    ctx.fail("Cache: a cached dependency was executed again", observed=idof[key])
+                if any(d in cached for d in deps):
+                    ctx.branch("cost:cached-dependency-counts-zero")
+                if deps and want > own:
+                    ctx.branch("cost:dependency-duration-added")
+                evs.append([Sym("post"), idof[key], t, sorted(idof[d] for d in deps)])
+                puts.append([idof[key], dur])
+            else:
+                if e[1] or e[2]:
+                    ctx.fail("Cache._finish left starttimes / durations behind", observed=[len(e[1]), len(e[2])])
+                evs.append([Sym("finish")])
+        if failed:
+            ctx.branch("cost:failing-call")
+        if call["sched"] == "threaded":
+            ctx.branch("cost:threaded")
+    if [idof[k] for k, _, _ in costs] != [p[0] for p in puts]:
+        ctx.fail("Cache: not exactly one cache.put per posttask, in order", observed=[idof[k] for k, _, _ in costs], expected=[p[0] for p in puts])
+    for (k, cost, nb), (_, dur) in zip(costs, puts):
+        if cost != dur / nb / 1e9:
+            ctx.fail("Cache: the cost handed to cache.put is not duration / nbytes / 1e9", observed=[idof[k], cost], expected=dur / nb / 1e9)
+    model = ctx.lean(Sym("cache_cost"), evs)
+    ctx.eq("Cache durations handed to cache.put vs model fold", model, [Sym("ok"), puts, [], []])
+    if len(inp["calls"]) > 1:
+        ctx.branch("cost:several-calls-one-cache")
+
+
 def case_cache(ctx, inp):
     from core import enable_stubs
     enable_stubs()
@@ -512,7 +626,7 @@ def case_keylike(ctx, inp):
     ctx.branch("keylike:" + kind)
 
 
-CASES = {"prof": case_prof, "cprof": case_cprof, "cache": case_cache, "keylike": case_keylike, "session": case_session}
+CASES = {"prof": case_prof, "cprof": case_cprof, "cache": case_cache, "keylike": case_keylike, "session": case_session, "cost": case_cost}
 
 
 def _calls(rng, dag, n, fail_p=0.0, evict=False):
@@ -565,6 +679,12 @@ def generate(ctx):
                     c["fails"] = {str(rng.choice(tasks)): rng.choice(["Boom", "ValueError"])}
             calls.append(c)
         yield "session", {"dag": dag, "calls": calls, "seed": rng.randrange(1 << 30)}
+
+
+    for _ in range(ctx.n(150, 1500)):
+        dag = U.gen_dag(rng, rng.randint(2, 12), p_data=rng.choice([0.05, 0.2]), p_alias=rng.choice([0.0, 0.1]),
+                        shape=rng.choice(["chain", "wide"]))
+        yield "cost", {"dag": dag, "calls": _calls(rng, dag, rng.choice([2, 3, 4]), fail_p=0.2, evict=True), "seed": rng.randrange(1 << 30)}
 
 
 def search(ctx):
